@@ -1,4 +1,4 @@
-import TwistedModel.Transport.FD
+import TwistedModel.Transport.FDPy
 /-!
 Driver glue for C14.
 
@@ -13,6 +13,13 @@ Byte strings are `<len>:<seed>` (an LCG stream, `genBytes`), so that 1 MiB write
              resumeProducing of the transport, `d<n>` / `dA` / `dE` one writability event where the OS
              takes min(n, offered) / everything / fails, `x` connection dropped by the reactor,
              `c` stopConsuming
+  Python representations of the arguments (same abstract operation; top-level ones are run by the Python-level
+  functions of `FDPy.lean`, those inside producer scripts are abstracted - sound by `TwistedProps.C14.applyPy_eq`):
+             `W<len>:<seed>` write(<bytes subclass>);  `S<k><b>;<b>;…` writeSequence(<iterable of kind k>):
+             `t` tuple, `c`/`j`/`r` list the caller clears / overwrites / re-fills afterwards (list or tuple: `Iovec.seq`),
+             `q` deque, `v` user collection (`Iovec.coll`), `g` generator, `i` iterator, `m` map object (`Iovec.once`);
+             `r<pid>:<0|1>n` registerProducer(prod, <int>);
+             `b<op>` an operation (`w…`, `s…`, `d…`) on ANOTHER transport: no effect on this one, no output step.
   → per op  `<ev>,<ev>,…/W<w>R<r>c<connected>d<disconnecting>` (`-` when no event), joined by spaces:
       `p<pid>.R` `.P` `.S` producer callbacks, `o<len>:<adler32>><n>` writeSomeData(offered) → n (`>E` error),
       `H` _closeWriteConnection, `X<why>:<pending>` connectionLost, `!RuntimeError`.
@@ -42,13 +49,28 @@ def decBytes (s : String) : Option Bytes :=
     pure (genBytes l sd)
   | _ => none
 
+def decChunks (s : String) : Option (List Bytes) :=
+  if s = "" then some [] else (s.splitOn ";").mapM decBytes
+
+/-- `S<k>…`: the iterable of kind `k` -/
+def decIovec (s : String) : Option Iovec :=
+  if s.startsWith "S" then
+    let k := (s.drop 1).toString.take 1
+    let body := decChunks (s.drop 2).toString
+    if k.toString = "t" || k.toString = "c" || k.toString = "j" || k.toString = "r" then body.map Iovec.seq
+    else if k.toString = "q" || k.toString = "v" then body.map Iovec.coll
+    else if k.toString = "g" || k.toString = "i" || k.toString = "m" then body.map Iovec.once
+    else none
+  else none
+
 def decPOp (s : String) : Option POp :=
   if s = "u" then some .unregister
   else if s = "l" then some .lose
   else if s = "h" then some .loseWrite
   else if s = "s" then some (.writeSeq [])
-  else if s.startsWith "w" then (decBytes (s.drop 1).toString).map POp.write
+  else if s.startsWith "w" || s.startsWith "W" then (decBytes (s.drop 1).toString).map POp.write
   else if s.startsWith "s" then (((s.drop 1).toString.splitOn ";").mapM decBytes).map POp.writeSeq
+  else if s.startsWith "S" then (decIovec s).map (fun v => POp.writeSeq v.items)     -- abstracted: applyPy_eq
   else none
 
 def decScript (s : String) : Option (List POp) :=
@@ -71,7 +93,7 @@ def decProds (s : String) : Option (List Producer) :=
 def decBool (s : String) : Option Bool :=
   if s = "0" then some false else if s = "1" then some true else none
 
-def decOp (s : String) : Option Op :=
+def decOp0 (s : String) : Option Op :=
   if s = "p" then some .pauseT
   else if s = "q" then some .resumeT
   else if s = "x" then some .extLost
@@ -94,6 +116,32 @@ def decOp (s : String) : Option Op :=
     | some .loseWrite => some .loseWrite
     | none => none
 
+def decFlag (s : String) : Option Flag :=
+  if s = "0" then some (.bool false) else if s = "1" then some (.bool true)
+  else if s = "0n" then some (.int 0) else if s = "1n" then some (.int 1) else none
+
+/-- operations as the Python caller makes them -/
+def decOp (s : String) : Option PyOp :=
+  if s.startsWith "S" then (decIovec s).map PyOp.writeSeqIt
+  else if s.startsWith "r" then
+    match (s.drop 1).toString.splitOn ":" with
+    | [pid, f] => do
+      let pid ← pid.toNat?
+      let f ← decFlag f
+      pure (.registerFlag pid f)
+    | _ => none
+  else (decOp0 s).map PyOp.base
+
+/-- `b<op>`: a write or a writability event on another transport -/
+def isBystander (s : String) : Bool :=
+  s.startsWith "b" &&
+    (match decOp0 (s.drop 1).toString with
+     | some (.write _) => true
+     | some (.writeSeq _) => true
+     | some (.tick (.n _)) => true
+     | some (.tick .all) => true
+     | _ => false)
+
 def showKind : Kind → String
   | .resume => "R" | .pause => "P" | .stop => "S"
 
@@ -115,10 +163,10 @@ def showStep (s : St) : String :=
   (if evs.isEmpty then "-" else ",".intercalate evs) ++
     "/W" ++ b01 s.writer ++ "R" ++ b01 s.reader ++ "c" ++ b01 s.connected ++ "d" ++ b01 s.disconnecting
 
-def steps (cb : Cb) : List Op → St → List String → List String × St
+def steps (cb : Cb) : List PyOp → St → List String → List String × St
   | [], s, acc => (acc.reverse, s)
   | op :: ops, s, acc =>
-    let s := applyOp cb op { s with log := [] }
+    let s := applyPy cb op { s with log := [] }
     steps cb ops s (showStep s :: acc)
 
 def scriptCount (ps : List Producer) : Nat :=
@@ -127,7 +175,7 @@ def scriptCount (ps : List Producer) : Nat :=
 def handle (args : List String) : String :=
   match args with
   | sl :: bs :: prods :: ops =>
-    match sl.toNat?, bs.toNat?, decProds prods, ops.mapM decOp with
+    match sl.toNat?, bs.toNat?, decProds prods, (ops.filter (fun t => !isBystander t)).mapM decOp with
     | some sl, some bs, some prods, some ops =>
       let (outs, s) := steps (cbAt (scriptCount prods + 2)) ops (init sl bs prods) []
       " ".intercalate outs ++ (if s.starved then " starved" else "")
